@@ -104,5 +104,10 @@ class Handler(object):
         if self.on_call is not None:
             self.on_call(args, io, command)
         if "raise" in self.outcome:
+            if self.outcome["raise"].get("scope"):
+                # raised inside one of the library's own context managers (an indentation scope)
+                with io.indent(2):
+                    io.write_line("inside the scope")
+                    raise_it(self.outcome["raise"])
             raise_it(self.outcome["raise"])
         return value_of(self.outcome["ret"])
